@@ -604,18 +604,23 @@ func (r *c12Run) checkSites(al align.Alignment) {
 	c, cs, p, n, L := r.c, r.cs, &r.p, r.n, r.L
 	var first, last int
 	var kept, rm []int
+	set := []uint8(cs.Chars) // the caller's character set: an argument, to be left as it is
 	pn, msg := mc.Guard(func() {
 		switch r.opi {
 		case 0:
 			first, last, kept, rm = al.RemoveGapSites(cs.Cutoff, cs.Ends)
 		case 1:
-			first, last, kept, rm = al.RemoveCharacterSites([]uint8(cs.Chars), cs.Cutoff, cs.Ends, cs.IgnoreCase, cs.IgnoreGaps, cs.IgnoreNs, cs.Reverse)
+			first, last, kept, rm = al.RemoveCharacterSites(set, cs.Cutoff, cs.Ends, cs.IgnoreCase, cs.IgnoreGaps, cs.IgnoreNs, cs.Reverse)
 		case 2:
 			first, last, kept, rm = al.RemoveMajorityCharacterSites(cs.Cutoff, cs.Ends, cs.IgnoreGaps, cs.IgnoreNs)
 		}
 	})
 	if pn {
 		r.viol("panic/"+mc.PanicSite(msg), msg)
+		return
+	}
+	if string(set) != cs.Chars {
+		r.viol("character-set-argument-modified", fmt.Sprintf("the set %q handed to RemoveCharacterSites reads %q after the call (a caller that uses it again cleans other characters)", cs.Chars, set))
 		return
 	}
 	full := uint32(1)<<uint(L) - 1
